@@ -34,14 +34,25 @@ def run(prop, tier):
     known = common.load_known(prop)
     reps = common.run_units("contracts.codec:unit", units(tier, "C01"), budget=600)
     v.absorb(reps, known)
+    proved = (v.obligations, v.discharged)
+    hunits = [dict(b0=b, samples=3 if tier == "quick" else 24, seed=common.seed() + 17, kind="hooks-after-history", replayer="contracts.codec:replay_hooks_history") for b in range(256)]
+    hreps = common.run_units("contracts.codec:unit_hooks_history", hunits, budget=300)
+    v.absorb(hreps, known)
+    nb = (v.obligations - proved[0], v.discharged - proved[1])
+    v.obligations, v.discharged = proved
+    v.extra["bounded_obligations"] = dict(generated=nb[0], discharged=nb[1], note="concrete callback histories: bounded, not counted in obligations/discharged")
+    hist_note = dict(part="architecture callbacks after a history sharing a byte prefix (contracts.codec:unit_hooks_history)",
+                     bound=f"256 first bytes x {hunits[0]['samples']} (x3 behind a prefix) concrete byte strings x every shared-prefix length: what the callbacks say about s after they were asked about s' equals what the plain decoder says about s alone",
+                     note="bounded companion of 'independent of anything decoded earlier' for caches keyed on part of the bytes (a symbolic byte string cannot follow a hash lookup)")
     v.assumptions = [
         "work unit = first byte (and second byte after a prefix); every other byte of an 8-byte buffer and the 20-bit address are symbolic; truncation to 0..7 bytes is checked on the same symbolic bytes inside each unit",
         "history independence = the shared OPCODES operand templates are structurally unchanged after every path (decode reads no other mutable module state), so by induction earlier decodes cannot matter",
         "emulator fetch compared at address 0x1000 over a symbolic memory holding the same bytes",
         "a lone prefix byte is returned by decode() as a 1-byte PRE object but rejected by get_instruction_info/llil; get_instruction_text renders it (the property only constrains text when info accepts)",
     ]
+    v.bounded = [hist_note]
     if tier == "quick":
-        v.bounded = [dict(part="prefix x opcode pairs", bound=f"prefixes {[hex(p) for p in QUICK_PRES]} x 256 second bytes in the quick tier; all 15 in the thorough tier", note="each pair is itself proved for all remaining bytes")]
+        v.bounded = [hist_note, dict(part="prefix x opcode pairs", bound=f"prefixes {[hex(p) for p in QUICK_PRES]} x 256 second bytes in the quick tier; all 15 in the thorough tier", note="each pair is itself proved for all remaining bytes")]
     for r in reps:
         if len(v.samples) < 5 and r.get("obligations", 0) > 20:
             v.samples.append(dict(unit=r["unit"], path_outcomes=r["kinds"], obligations=r["obligations"]))
